@@ -97,6 +97,7 @@ func (s *streamer) makeCharged(stream *stream) {
 	s.chargedMu.Lock()
 	s.charged = append(s.charged, stream)
 	verifTrace(vtStreamCharge, stream, 0, 0, 0, 0)
+	verifTrace(vtStreamerSignal, s, int64(len(s.charged)), 0, 0, 0)
 	s.chargedCond.Signal()
 	s.chargedMu.Unlock()
 }
@@ -105,7 +106,9 @@ func (s *streamer) makeCharged(stream *stream) {
 func (s *streamer) joinStream() *stream {
 	s.chargedMu.Lock()
 	for len(s.charged) == 0 {
+		verifTrace(vtStreamerSleep, s, 0, 0, 0, 0)
 		s.chargedCond.Wait()
+		verifTrace(vtStreamerWake, s, int64(len(s.charged)), verifBool(s.shouldStop.Load()), 0, 0)
 		if s.shouldStop.Load() {
 			s.chargedMu.Unlock()
 			return nil
